@@ -10,6 +10,12 @@ CLAIMED = {
     "C01": ("Hypothesis value grammar + round-trip with type-exact fingerprint; unsupported-leaf-at-position generator; real popen echo worker",
             "Generated-input search: every generated supported value must round-trip through dumps/loads, dump/load over BytesIO and mmap, a real channel and remote_exec kwargs with an identical type-exact fingerprint; every generated unsupported value must raise DumpError with no EXEC/DATA frame on the wire and the channel usable afterwards.",
             "Sampling, not proof. Trusts vlib/values.py (fingerprint, JSON codec). Nesting depth <= 100.", "3/C01"),
+    "C12": ("differential against an independent reference codec (byte-for-byte), legacy-opcode stream grammar x 4 coercion settings, injected frames on a real Gateway, cross-interpreter and released-version differential",
+            "Generated-input search with an independent reference encoder/decoder as oracle: dumps must equal the reference bytes; reference streams incl. Python-2 opcodes must load per the documented coercion table through loads/load/channels/gateways; foreign version bytes must raise DataFormatError; the same values and dumps are exchanged with the tree's code on the other CPython versions and with the released execnet.",
+            "Sampling. Trusts vlib/refcodec.py as the format description. Python 2 producers are modelled, not run.", "3/C12"),
+    "C13": ("opcode-soup grammar, exhaustive single-byte mutation neighbourhoods of small dumps, atheris coverage-guided fuzzing; audit-hook side-effect oracle",
+            "Generated and exhaustively mutated byte strings are fed to loads under an oracle that accepts only a value of supported builtin types, DataFormatError or EOFError, forbids any audit event that would mean code execution or I/O, requires termination, and requires every strict prefix of a valid dump to fail. Mutation neighbourhoods are complete per seed; everything else is sampled or coverage-guided.",
+            "Inputs with NEWLIST counts > 65536 are excluded and counted (known allocation finding, confirmed per run in a memory-limited child). atheris needs /opt/veriftools/pyvenv.", "3/C13"),
 }
 
 NOT_APPLICABLE = {}
